@@ -20,6 +20,7 @@ pub fn tok_bytes(tok: &str, e_choice: usize) -> Vec<u8> {
         "B" => b"\\".to_vec(),
         "N" => b"\n".to_vec(),
         "T" => b"\t".to_vec(),
+        "R" => b"\r".to_vec(),
         "G" => vec![0x07],
         "S" => vec![0x1b],
         "Z" => vec![0xE9],
